@@ -467,6 +467,9 @@ func (fd *Client) Query(input *dynamodb.QueryInput) (*dynamodb.QueryOutput, erro
 	}
 
 	indexName := aws.StringValue(input.IndexName)
+	if indexName != "" && !table.HasIndex(indexName) {
+		return nil, awserr.New("ValidationException", "The table does not have the specified index: "+indexName, nil)
+	}
 
 	if input.ScanIndexForward == nil {
 		input.ScanIndexForward = aws.Bool(true)
@@ -519,6 +522,9 @@ func (fd *Client) Scan(input *dynamodb.ScanInput) (*dynamodb.ScanOutput, error) 
 	}
 
 	indexName := aws.StringValue(input.IndexName)
+	if indexName != "" && !table.HasIndex(indexName) {
+		return nil, awserr.New("ValidationException", "The table does not have the specified index: "+indexName, nil)
+	}
 
 	items, lastKey := table.SearchData(core.QueryInput{
 		Index:                     indexName,
